@@ -1,17 +1,17 @@
-\* as is: two Peers(ctx) callers against one worker and Discard
+\* as is, thorough: three peers, limit two, a caller, a lost connection, a failing dial
 SPECIFICATION Spec
 CONSTANTS
-  Peers = {"p1", "p2"}
+  Peers = {"p1", "p2", "p3"}
   Self = "self"
-  Limit = 1
-  Workers = {"w1"}
-  Callers = {"c1", "c2"}
+  Limit = 2
+  Workers = {"w1", "w2"}
+  Callers = {"c1"}
   Delay = 1
-  MaxRounds = 2
+  MaxRounds = 3
   MaxDrops = 1
   MaxInbound = 0
-  MaxFail = 0
-  MaxCalls = 2
+  MaxFail = 1
+  MaxCalls = 1
   MaxApi = 0
   WithGC = TRUE
   AtomicPeers = FALSE
